@@ -111,6 +111,20 @@ SUITES.update({
                             "equal iff same canonical string; order laws incl. transitivity over all triples"),
 })
 
+SPELL_INVS = ["C02C05_Writer", "OraclesAgree", "C01_RoundTrip", "Emit"]
+SUITES.update({
+    "SPELL": dict(module="MC_Spell", kind="bfs", invariants=SPELL_INVS, replay=["--serde"],
+                  quick=dict(MODE='"spell"', K=2), thorough=dict(MODE='"spell"', K=3),
+                  describe="13 component tuples (minimal, full, npm scope, golang path, checksum, non-ASCII, separators inside every component, "
+                           "type/key with . + - digits, unsorted qualifiers, pypi, nuget, maven, space/quote/%) x every spelling with at most K deviations "
+                           "from the canonical one (Writer oracle, independent of the strict reader)"),
+    "FAULT": dict(module="MC_Spell", kind="bfs", invariants=SPELL_INVS, replay=["--serde"],
+                  quick=dict(MODE='"fault"', K=0), thorough=dict(MODE='"fault"', K=0),
+                  describe="the same tuples x every single fault of C05 (scheme, empty path, invalid/escaped type character at every position, "
+                           "empty name, 11 invalid-UTF-8 escape spellings in each component, hidden slash, escaped dot segments, qualifier and checksum "
+                           "malformations) with the class the injector demands, plus double faults (class free)"),
+})
+
 # drivers (impl -> spec): name -> dict(trace module, calls per tier, extra args, processes)
 CORPUS = ["--corpus", "/repo/xtask/src/generate_tests/test-suite-data.json",
           "--corpus", "/repo/xtask/src/generate_tests/phylum-test-suite-data.json"]
@@ -131,7 +145,7 @@ DRIVERS = {
                          describe="random call sequences on live Checksum values in several processes (fresh RandomState each)"),
 }
 
-PARSE_ALL = ["PARSE-SEP", "PARSE-PATH", "PARSE-QUAL", "PARSE-TYPED", "PARSE-NS", "PARSE-SUB", "PARSE-QUALS2"]
+PARSE_ALL = ["PARSE-SEP", "PARSE-PATH", "PARSE-QUAL", "PARSE-TYPED", "PARSE-NS", "PARSE-SUB", "PARSE-QUALS2", "SPELL", "FAULT"]
 BUILD_ALL = ["BUILDER-G", "BUILDER-T", "BUILDER-SIM-G", "BUILDER-SIM-T"]
 PROPS = {
     "C01": dict(suites=PARSE_ALL + ["FORMAT-1", "TYPES-NAMES"], drivers=["garbage", "corpus"]),
@@ -140,16 +154,16 @@ PROPS = {
     "C04": dict(suites=PARSE_ALL + BUILD_ALL + ["SHAPES"], drivers=["garbage", "builder-ops"]),
     "C05": dict(suites=PARSE_ALL, drivers=["corpus", "garbage"]),
     "C06": dict(suites=PARSE_ALL + ["QUAL", "QUAL-SIM", "CHECKSUM", "BUILDER-G", "BUILDER-T", "BUILDER-SIM-G", "FORMAT-1", "TYPES-LOOKUP", "TYPES-COMB", "SHAPES"], drivers=["garbage", "corpus", "qual-ops", "checksum-ops", "builder-ops", "big"]),
-    "C07": dict(suites=["PARSE-NS", "PARSE-SUB", "PARSE-PATH", "PARSE-SEP"], drivers=["garbage", "corpus"]),
+    "C07": dict(suites=["PARSE-NS", "PARSE-SUB", "PARSE-PATH", "PARSE-SEP", "SPELL", "FAULT"], drivers=["garbage", "corpus"]),
     "C08": dict(suites=["TYPES-NAMES", "PARSE-TYPED", "BUILDER-T", "TYPES-COMB"], drivers=["scalars"]),
     "C09": dict(suites=BUILD_ALL + ["FORMAT-1", "FORMAT-2"], drivers=["builder-ops"]),
     "C10": dict(suites=PARSE_ALL + ["BUILDER-G", "BUILDER-T", "FORMAT-1", "TYPES-NAMES", "CHECKSUM"], drivers=["scalars", "corpus"]),
     "C11": dict(suites=["QUAL", "QUAL-SIM"], drivers=["qual-ops"]),
-    "C12": dict(suites=["CHECKSUM", "BUILDER-G", "PARSE-QUAL"], drivers=["checksum-ops", "corpus"]),
-    "C13": dict(suites=["TYPES-STR", "PARSE-SEP", "PARSE-PATH", "BUILDER-G", "BUILDER-SIM-G", "FORMAT-1"], drivers=[]),
+    "C12": dict(suites=["CHECKSUM", "BUILDER-G", "PARSE-QUAL", "SPELL"], drivers=["checksum-ops", "corpus"]),
+    "C13": dict(suites=["TYPES-STR", "PARSE-SEP", "PARSE-PATH", "SPELL", "BUILDER-G", "BUILDER-SIM-G", "FORMAT-1"], drivers=[]),
     "C14": dict(suites=["SHAPES"], drivers=[]),
     "C15": dict(suites=["TYPES-LOOKUP", "PARSE-TYPED"], drivers=[]),
-    "C16": dict(suites=["PARSE-SEP", "PARSE-PATH", "PARSE-QUAL", "PARSE-TYPED", "FORMAT-1", "FORMAT-2", "BUILDER-G", "BUILDER-T", "TYPES-LOOKUP"], drivers=[]),
+    "C16": dict(suites=["PARSE-SEP", "PARSE-PATH", "PARSE-QUAL", "PARSE-TYPED", "SPELL", "FAULT", "FORMAT-1", "FORMAT-2", "BUILDER-G", "BUILDER-T", "TYPES-LOOKUP"], drivers=[]),
     "C17": dict(suites=[], drivers=[], extra="c17",
                 assumptions=["feature sets are compile-time: the harness is compiled once per set; TLC supplies the common case stream and validates the zipped transcripts, it does not enumerate configurations"]),
     "C18": dict(suites=["TYPES-COMB"], drivers=[]),
